@@ -18,7 +18,7 @@ CHECKS = {
 
 CHECKS["C11"] = dict(
     category="model_checking",
-    technique="TLA+ navigation state machine (Nav.tla) model-checked by TLC; TLC-generated behaviours and deviation counterexamples replayed through the real API; recorded sessions validated by TLC against Trace_Nav.tla; plus cross-subsystem session walks (preferences, expressions, getters, navigation, routing, rule files damaged and repaired in between) with the complete projected state after every call validated by TLC against the umbrella specification Session.tla (Trace_Session.tla; this property's clauses at property level, the step relation at refinement level); plus the key-press table as a TLA+ function (Keys.tla: TLC checks over 256 key codes x 16 modifier combinations that no combination reaches a panic arm) whose every entry is pressed in the library from several start states and judged by TLC (Trace_Keys.tla)",
+    technique="TLA+ navigation state machine (Nav.tla) model-checked by TLC; TLC-generated behaviours and deviation counterexamples replayed through the real API; recorded sessions validated by TLC against Trace_Nav.tla; plus cross-subsystem session walks (preferences, expressions, getters, navigation, routing, rule files damaged and repaired in between) with the complete projected state after every call validated by TLC against the umbrella specification Session.tla (Trace_Session.tla; this property's clauses at property level, the step relation at refinement level); plus the key-press table as a TLA+ function (Keys.tla: TLC checks over 256 key codes x 16 modifier combinations that no combination reaches a panic arm) whose every entry is pressed in the library from several start states and judged by TLC (Trace_Keys.tla); where commands land is compared with the landing laws of NavGeom.tla (model-checked on every ordered tree of <= 6 nodes) at refinement level (Trace_NavGeom.tla)",
     text="TLC explores the navigation model (stacks, markers, retry loop, reset) exhaustively for small constants and checks the C11 invariants and action properties; the deviation configurations must be refuted and their counterexamples are replayed in the library. Simulated model behaviours, systematic move/undo sweeps and seeded random walks over the suite's expressions (3 modes, overview/auto-zoom both ways, keys, set_navigation_node, failed and successful set_mathml) are recorded with position before/after and judged event by event by TLC with exactly the clauses of C11. Histories are sampled, not enumerated, in the real library.",
     design_ref="DESIGN.md section 5 C11",
     note="Where a Move/Zoom lands is decided by navigate.yaml and is deliberately unspecified (only: within the expression). Trusted: ids in the returned MathML, TLC, the projection of results into events.",
